@@ -371,6 +371,49 @@ def _patterns_branch(stmts):
                          '; '.join(ast.unparse(n) for n in stmts)[:200])
 
 
+def searchdef_run(tree):
+    """ the test guarding the hint pre-check of SearchDef.run, and the test
+    that leaves the pattern loop """
+    fn = find_def(tree, 'SearchDef.run')
+    body = _body(fn)
+    gates = [n for n in body if isinstance(n, ast.If)
+             and 'self.hint' in ast.unparse(n.test)]
+    gate = _one(gates, "`if ... self.hint ...` in SearchDef.run")
+    inner = [n for n in ast.walk(gate) if isinstance(n, ast.Call)
+             and ast.unparse(n.func) == 'self.hint.search']
+    _one(inner, "self.hint.search(..) under the hint test")
+    tr = Tr(subst={'self.hint': ('has_hint', 'bool', ['has_hint']),
+                   'len(self.patterns)': ('npatterns', 'Z', ['npatterns'])},
+            bools={'has_hint'})
+    # only the part of the test that does not involve the search itself
+    test = gate.test
+    if isinstance(test, ast.BoolOp) and isinstance(test.op, ast.And):
+        parts = [v for v in test.values
+                 if 'self.hint.search' not in ast.unparse(v)]
+        if not parts:
+            raise Untranslatable("SearchDef.run: hint test without gate")
+        test = parts[0] if len(parts) == 1 else \
+            ast.BoolOp(op=ast.And(), values=parts)
+    g = tr.cond(test)
+    loops = [n for n in body if isinstance(n, ast.For)
+             and ast.unparse(n.iter) == 'self.patterns']
+    loop = _one(loops, "`for .. in self.patterns` in SearchDef.run")
+    brk = [n for n in loop.body if isinstance(n, ast.If)
+           and any(isinstance(x, ast.Break) for x in n.body)]
+    b = _one(brk, "`if ..: break` in the pattern loop")
+    if not isinstance(b.test, ast.Name):
+        raise Untranslatable("SearchDef.run: the loop must break on the "
+                             "truth of the match")
+    t = Tr(names={b.test.id: 'matched'}, bools={'matched'}).cond(b.test)
+    return (
+        f"(* if {ast.unparse(test)}: <hint pre-check> *)\n"
+        "Definition searchdef_run_hint_gate (has_hint : bool) "
+        f"(npatterns : Z) : bool :=\n  {g}.\n"
+        f"(* if {ast.unparse(b.test)}: break *)\n"
+        f"Definition searchdef_run_leaves_loop (matched : bool) : bool := "
+        f"{t}.\n")
+
+
 def searchdef_init(tree):
     fn = find_def(tree, 'SearchDef.__init__')
     body = _body(fn)
@@ -513,6 +556,7 @@ ITEMS = [
     ('enumerate_start', 'searchkit/task.py', run_search),
     ('store_result_ranges', 'searchkit/result.py', store_result),
     ('apply_single_updates', 'searchkit/search.py', apply_single),
+    ('searchdef_run_tests', 'searchkit/searchdef.py', searchdef_run),
     ('searchdef_init', 'searchkit/searchdef.py', searchdef_init),
     ('searchdefbase', 'searchkit/searchdef.py', searchdefbase),
     ('task_init', 'searchkit/task.py', task_init),
